@@ -361,7 +361,7 @@ impl Exec {
                 expect_blocks += 1;
                 continue;
             }
-            if o.drop_panicked && !wt.contains_key(&id) {
+            if o.leak_ok && !wt.contains_key(&id) {
                 // its destructor was made to panic while it was being released: the block is never
                 // returned (and stays counted); nothing more is required of it
                 expect_blocks += 1;
@@ -423,12 +423,12 @@ impl Exec {
             if o.kind.has_token() && o.drops != 1 {
                 msgs.push(format!("object {} ({}) destructed {} times over the arena's life", o.id, o.kind.name(), o.drops));
             }
-            if o.registered && !o.freed && track::enabled() && !o.drop_panicked {
+            if o.registered && !o.freed && track::enabled() && !o.leak_ok {
                 msgs.push(format!("allocation of object {} ({}) not returned to the allocator after arena drop", o.id, o.kind.name()));
             }
         }
         // blocks of objects whose destructor panicked are never released (and stay counted)
-        let leaked = self.w.objs.values().filter(|o| o.a == a && o.drop_panicked && !o.freed).count();
+        let leaked = self.w.objs.values().filter(|o| o.a == a && o.leak_ok && !o.freed).count();
         // (they belong to the arena that is gone, not to a later arena in the same slot)
         self.w.arenas[ai].live_blocks -= leaked.min(self.w.arenas[ai].live_blocks);
         for m in msgs {
@@ -445,7 +445,7 @@ impl Exec {
             }
         }
         // blocks leaked by panicking destructors are gone for good as far as the model is concerned
-        for o in self.w.objs.values_mut().filter(|o| o.a == a && o.drop_panicked && !o.freed) {
+        for o in self.w.objs.values_mut().filter(|o| o.a == a && o.leak_ok && !o.freed) {
             o.freed = true;
         }
         self.w.arenas[ai].exists = false;
